@@ -391,6 +391,7 @@ pub fn generate(property: &str, tier: &str, seed: u64, index: u64) -> Plan {
         "C11" => c11(property, seed, index),
         "C12" => c12(property, seed, index),
         "C18" => c18(property, seed, index),
+        "C15" => c15(property, seed, index),
         "C16" => c16(property, seed, index),
         "C17" => {
             let mut p = s1(property, if index % 2 == 0 { "s1-3to4peers" } else { "s1" }, seed, &S1Opts { min_peers: if index % 2 == 0 { 3 } else { 2 }, desync: index % 3 == 0, allow_lockstep: true, frames_lo: 80, frames_hi: 500, long_run_pct: 3, ..Default::default() });
@@ -1426,4 +1427,73 @@ pub fn c16(property: &str, seed: u64, index: u64) -> Plan {
     p.cfg.predict_default = false;
     p.mode = Mode::Builder { calls, start };
     p
+}
+
+
+// ------------------------------------------------------------------ C15
+
+/// Fault-free: two peers driven by the documented main loop (poll every 1-2 ms, advance every
+/// 1/fps); node 0 starts ticking `k` frames before node 1; symmetric constant latency.
+pub fn c15(property: &str, seed: u64, index: u64) -> Plan {
+    let c = Ch::new(seed, "c15");
+    // the grid: 15 leads x 11 latencies x 3 fps, then seeded tick phases and clock skews
+    let k = (index % 15) as i32 - 7;
+    let lat_ms = ((index / 15) % 11) * 10;
+    let fps = [30usize, 60, 120][((index / 165) % 3) as usize];
+    let per = 1_000_000 / fps as u64;
+    let lat_frames = (lat_ms * fps as u64).div_ceil(1000);
+    let mp = k.unsigned_abs() as usize + 2 * lat_frames as usize + 4;
+    let start = ms(1500);
+    let (s0, s1) = if k >= 0 { (start, start + k as u64 * per) } else { (start + (-k) as u64 * per, start) };
+    let phase = c.range(&[1], 0, per - 1);
+    let mk = |locals: Vec<usize>, st: u64, wall: u64, poll: u64| NodeSpec {
+        kind: NodeKind::Peer { locals },
+        tick: TickSpec { start_us: st, period_us: per, poll_period_us: poll, ..Default::default() },
+        wall_offset_ms: wall,
+        drain: true,
+    };
+    let day = 86_400_000u64;
+    let base = 1_700_000_000_000u64;
+    let nodes = vec![
+        mk(vec![0], s0, base + c.range(&[2], 0, 2 * day), c.range(&[3], 1000, 2000)),
+        mk(vec![1], s1 + phase, base + c.range(&[4], 0, 2 * day), c.range(&[5], 1000, 2000)),
+    ];
+    let links = vec![
+        LinkSpec { from: 0, to: 1, base_us: ms(lat_ms), jitter_us: 0, loss_ppm: 0, dup_ppm: 0 },
+        LinkSpec { from: 1, to: 0, base_us: ms(lat_ms), jitter_us: 0, loss_ppm: 0, dup_ppm: 0 },
+    ];
+    let measure_from = start + ms(3000) + 8 * per;
+    Plan {
+        property: property.to_owned(),
+        scenario: "c15-constant-lead".into(),
+        seed,
+        cfg: RunCfg {
+            num_players: 2,
+            max_prediction: mp,
+            input_delay: *c.pick(&[6], &[0usize, 0, 2]),
+            sparse: false,
+            desync_interval: 0,
+            fps,
+            timeout_ms: 2000,
+            notify_ms: 500,
+            predict_default: false,
+            input_mode: InputMode::Held(10),
+            hash_seed: mix(seed ^ 0x4a5),
+            hash_per_map: false,
+            rng_seed: mix(seed ^ 0x77),
+            clock_bump_us: 0,
+        },
+        nodes,
+        links,
+        windows: Vec::new(),
+        pkt_faults: Vec::new(),
+        api: Vec::new(),
+        injects: Vec::new(),
+        perturb: Vec::new(),
+        horizon_us: measure_from + ms(5000),
+        mode: Mode::Net,
+        random_faults_until_us: Some(0),
+        exempt_kinds: 0,
+        oracle: OracleCfg { timesync: Some(TimeSyncCheck { lead: k, lead_milli: ((s1 + phase) as i64 - s0 as i64) * 1000 / per as i64, latency_us: ms(lat_ms), measure_from_us: measure_from }), no_disconnect_events: true, ..Default::default() },
+    }
 }
